@@ -8,6 +8,9 @@ Inductive case :=
 | CGen (parent : res kerr key) (parent_str : bytes) (ct : contract) (now : Z)
        (channel ty : bytes) (ttl expires : Z) (conn_id : bytes) (out : gout)
 (* the parent key string presented to Authorize after the request: still the key it was *)
+(* an extendable key (read + write on a/) used as a channel key against a real broker: subscriptions the
+   index gained, whether the client received a message of a/, whether its own publish was delivered *)
+| CExtUse (how : N) (held : Z) (received delivered : bool)
 | CProbe (parent : res kerr key) (parent_str : bytes) (ct : contract) (now : Z) (text : bytes) (perm : N) (ok : bool).
 
 (* 0 is not a date but "never expires": it is near nothing else *)
@@ -26,6 +29,8 @@ Definition gerr_eqb (a b : gerr) : bool :=
 
 Definition check (c : case) : N :=
   match c with
+  (* an extendable key cannot itself be used to publish or subscribe *)
+  | CExtUse how held received delivered => bit ((held =? 0)%Z && negb received && negb delivered) 2
   | CCreate parent pstr ct now channel access expires out =>
     let decrypt := fun s => if bytes_eqb s pstr then parent else Err KCorrupt in
     let contracts := fun id => if id =? ct_id ct then Some ct else None in
